@@ -20,9 +20,22 @@ def run(c):
         exs = getattr(c, "corr_examples", None) or []
         srcp = os.path.join(d, "cases.src")
         if exs and os.path.exists(srcp):
-            srcs = open(srcp).read().split("\n")
+            raw = open(srcp, "rb").read().split(b"\n")    # string-literal cases hold arbitrary bytes
+            srcs = [x.decode("utf-8", "replace") for x in raw]
             for k, exm in enumerate(exs[:5] + exs[5:400:5]):  # the first disagreements and a spread over the rest (often the first ones sit in dead code)
                 ln = exm.get("line", 0) - 1
+                if 0 <= ln < len(srcs) and srcs[ln].strip() and exm.get("case", "").startswith("jsstr"):
+                    # a string literal: its value is observed in sloppy and in strict code (legacy octal escapes are
+                    # errors there and inside templates)
+                    for variant, strict in enumerate([False, True]):
+                        w = os.path.join(c.outdir, "corrwitness%d_s%d.json" % (k, variant))
+                        json.dump({"input": "", "input_hex": (b"var x0;" + raw[ln] + b";h0(x0,x0.length)").hex(), "options": {}, "strict": strict}, open(w, "w"))
+                        c.tool("jsoracle", ["-witness", w], sub="corr-search-%d-s%d" % (k, variant), count=False)
+                        if c.new_violations:
+                            break
+                    if c.new_violations:
+                        break
+                    continue
                 if 0 <= ln < len(srcs) and srcs[ln].strip():
                     # every identifier gets a value and the result is observed through the host; several assignments of
                     # truthy / falsy values, since a mis-grouped && / || / ?: only shows for some of them
